@@ -8,15 +8,68 @@ from harness import core, py2lean, instantiate
 from harness.core import Outcome, f2b, b2f
 
 ID = "C01"
-LEAN_TARGETS = ["BeyondVerif.Props.C01", "BeyondVerif.Witness.C01"]
-THEOREMS = ["BeyondVerif.C01." + t for t in (
-    "cart_cyl_cart cyl_cart_cyl cart_sph_cart sph_cart_sph kepl_circ_kepl circ_kepl_circ mean_mcirc_mean mcirc_mean_mcirc "
-    "mean_tle_mean tle_mean_tle kepl_equi_kepl equi_kepl_equi kepl_ecc_kepl_elliptic ecc_kepl_ecc_elliptic "
-    "kepl_ecc_kepl_hyperbolic ecc_kepl_ecc_hyperbolic m2eLoop_exit m2e_residual_elliptic mean_ecc_mean_elliptic "
-    "ecc_mean_ecc_elliptic m2e_exit m2e_reduction_elliptic m2e_residual_hyperbolic mean_ecc_mean_hyperbolic ecc_mean_ecc_hyperbolic mean_mcirc_mean_hyperbolic keplToCart_respects_angEq keplToCirc_respects_angEq "
-    "edge_methods_are_links forms_walk_unique infos_fpa_components_unit infos_fpa_tan infos_visviva_energy infos_period "
-    "infos_apsides infos_hyperbolic keplToCart_radius_speed_momentum keplToCart_dot_node kepl_cart_kepl cart_kepl_cart_of_image walk_roundtrip_exact walk_roundtrip_cyl_sph").split()] + [
-    "BeyondVerif.C01W.m2e_start_clamped", "BeyondVerif.C01W.mean_circular_keeps_hyperbolic_M"]
+LEAN_TARGETS = ["BeyondVerif.Props.C01", "BeyondVerif.Props.C01Machine", "BeyondVerif.Witness.C01"]
+THEOREMS = [
+    "BeyondVerif.C01.cart_cyl_cart",
+    "BeyondVerif.C01.cyl_cart_cyl",
+    "BeyondVerif.C01.cart_sph_cart",
+    "BeyondVerif.C01.sph_cart_sph",
+    "BeyondVerif.C01.kepl_circ_kepl",
+    "BeyondVerif.C01.circ_kepl_circ",
+    "BeyondVerif.C01.mean_mcirc_mean",
+    "BeyondVerif.C01.mcirc_mean_mcirc",
+    "BeyondVerif.C01.mean_tle_mean",
+    "BeyondVerif.C01.tle_mean_tle",
+    "BeyondVerif.C01.kepl_equi_kepl",
+    "BeyondVerif.C01.equi_kepl_equi",
+    "BeyondVerif.C01.kepl_ecc_kepl_elliptic",
+    "BeyondVerif.C01.ecc_kepl_ecc_elliptic",
+    "BeyondVerif.C01.kepl_ecc_kepl_hyperbolic",
+    "BeyondVerif.C01.ecc_kepl_ecc_hyperbolic",
+    "BeyondVerif.C01.m2eLoop_exit",
+    "BeyondVerif.C01.m2e_residual_elliptic",
+    "BeyondVerif.C01.mean_ecc_mean_elliptic",
+    "BeyondVerif.C01.ecc_mean_ecc_elliptic",
+    "BeyondVerif.C01.m2e_exit",
+    "BeyondVerif.C01.m2e_reduction_elliptic",
+    "BeyondVerif.C01.m2e_residual_hyperbolic",
+    "BeyondVerif.C01.mean_ecc_mean_hyperbolic",
+    "BeyondVerif.C01.ecc_mean_ecc_hyperbolic",
+    "BeyondVerif.C01.mean_mcirc_mean_hyperbolic",
+    "BeyondVerif.C01.keplToCart_respects_angEq",
+    "BeyondVerif.C01.keplToCirc_respects_angEq",
+    "BeyondVerif.C01.edge_methods_are_links",
+    "BeyondVerif.C01.forms_walk_unique",
+    "BeyondVerif.C01.infos_fpa_components_unit",
+    "BeyondVerif.C01.infos_fpa_tan",
+    "BeyondVerif.C01.infos_visviva_energy",
+    "BeyondVerif.C01.infos_period",
+    "BeyondVerif.C01.infos_apsides",
+    "BeyondVerif.C01.infos_hyperbolic",
+    "BeyondVerif.C01.keplToCart_radius_speed_momentum",
+    "BeyondVerif.C01.keplToCart_dot_node",
+    "BeyondVerif.C01.kepl_cart_kepl",
+    "BeyondVerif.C01.cart_kepl_cart_of_image",
+    "BeyondVerif.C01.walk_roundtrip_exact",
+    "BeyondVerif.C01.walk_roundtrip_cyl_sph",
+    "BeyondVerif.C01.infos_helper_never_reused",
+    "BeyondVerif.C01.frame_setter_order",
+    "BeyondVerif.C01.form_setter_order",
+    "BeyondVerif.C01.copy_order",
+    "BeyondVerif.C01.readInfos_fresh",
+    "BeyondVerif.C01.readInfos_withSlot",
+    "BeyondVerif.C01.applyOp_withSlot",
+    "BeyondVerif.C01.run_independent_of_slot",
+    "BeyondVerif.C01.run_congr_core",
+    "BeyondVerif.C01.run_erase_reads",
+    "BeyondVerif.C01.setForm_elements",
+    "BeyondVerif.C01.setFrame_elements",
+    "BeyondVerif.C01.routes_mirror",
+    "BeyondVerif.C01.setForm_back",
+    "BeyondVerif.C01.setFrame_cartesian_view",
+    "BeyondVerif.C01W.m2e_start_clamped",
+    "BeyondVerif.C01W.mean_circular_keeps_hyperbolic_M",
+]
 LEVEL_TEXT = ("Lean theorems over R about the 17 edge functions, the M2E reduction/start/update/exit test/return and the Infos formulas translated from "
               "forms.py / statevector.py on every run (py2lean): round trips of all 9 links in both directions for all inputs in the stated domains "
               "(cyl, sph, circular, mean-circular incl. hyperbolic M exact, TLE, equinoctial, true<->eccentric/hyperbolic anomaly, keplerian->cartesian->"
